@@ -360,6 +360,9 @@ pub fn finish(ctx: &Ctx, mut st: Stats, rule: &str, assumptions: &[&str], vacuit
         println!("  signature={} count={} :: {}", f.sig, n, f.msg);
         replay_paths.push(path.display().to_string());
     }
+    if !violations.is_empty() && std::env::var("VERIF_SECOND_BUILD").is_ok() {
+        println!("  (reported by the second pass: library and harness built with debug assertions on; --replay tries both builds)");
+    }
     let distinct = st.nontrivial.len() as u64 + st.nontrivial_enum;
     let ev = json!({
         "property_id": ctx.property,
@@ -387,11 +390,42 @@ pub fn finish(ctx: &Ctx, mut st: Stats, rule: &str, assumptions: &[&str], vacuit
     });
     let evdir = verif_dir().join("evidence");
     let _ = std::fs::create_dir_all(&evdir);
-    let _ = std::fs::write(evdir.join(format!("{}.json", ctx.property)), serde_json::to_string_pretty(&ev).unwrap() + "\n");
+    let evpath = evdir.join(format!("{}.json", ctx.property));
+    let second = std::env::var("VERIF_SECOND_BUILD").is_ok();
+    if second {
+        // second pass of the same check, built with debug assertions on: the evidence of the first
+        // pass stays, this pass is recorded inside it
+        let mut base: serde_json::Value = std::fs::read_to_string(&evpath).ok().and_then(|t| serde_json::from_str(&t).ok()).unwrap_or_else(|| ev.clone());
+        let summary = json!({
+            "build": "opt-level 3, overflow checks on, debug assertions on",
+            "debug_assertions_on": cfg!(debug_assertions),
+            "tier": ctx.tier.name(),
+            "evaluations": st.evaluations,
+            "distinct_nontrivial": distinct,
+            "class_histogram": st.classes,
+            "exhaustive_subdomains": st.exhaustive,
+            "violations": violations.len(),
+            "violation_replays": replay_paths,
+            "wall_s": wall,
+        });
+        if let Some(c) = base.get_mut("coverage").and_then(|c| c.as_object_mut()) {
+            c.insert("debug_assertions_pass".into(), summary);
+        }
+        if let Some(o) = base.as_object_mut() {
+            let w = o.get("wall_s").and_then(|w| w.as_f64()).unwrap_or(0.0);
+            o.insert("wall_s".into(), json!(w + wall));
+            let v = o.get("violations").and_then(|v| v.as_u64()).unwrap_or(0);
+            o.insert("violations".into(), json!(v + violations.len() as u64));
+        }
+        let _ = std::fs::write(&evpath, serde_json::to_string_pretty(&base).unwrap() + "\n");
+    } else {
+        let _ = std::fs::write(&evpath, serde_json::to_string_pretty(&ev).unwrap() + "\n");
+    }
     println!(
-        "{} {}: evaluations={} distinct_nontrivial={} dontcare={} excluded={} violations={} wall={:.1}s",
+        "{} {}{}: evaluations={} distinct_nontrivial={} dontcare={} excluded={} violations={} wall={:.1}s",
         ctx.property,
         ctx.tier.name(),
+        if second { " (second pass, debug assertions on)" } else { "" },
         st.evaluations,
         distinct,
         st.dontcare,
